@@ -1,11 +1,39 @@
-import SaoVerif.Model.Step
+import SaoVerif.Spec.Inv
 /-! Executable monitors: the decidable property predicates evaluated on implementation states
-    and (pre, op, res, post) steps. Each hit is `(property id, message)`. -/
+    and (pre, op, res, post) steps. Each hit is `(property id, "clause=<name> …")`. -/
 namespace SaoVerif.Monitors
-open SaoVerif
+open SaoVerif SaoVerif.Spec
 
-def checkState (_e : Env) (_s : State) : List (String × String) := []
+def chk (b : Bool) (prop clause : String) (detail : String := "") : List (String × String) :=
+  if b then [] else [(prop, s!"clause={clause} {detail}")]
 
-def checkStep (_e : Env) (_pre : State) (_op : Op) (_res : Res) (_post : State) : List (String × String) := []
+def checkState (e : Env) (s : State) : List (String × String) :=
+  chk (ordersListExisting s) "C13" "ordersListExisting" ++
+  chk (shardsListedByOrder s) "C13" "shardsListedByOrder" ++
+  chk (completedScheduled s) "C13" "completedScheduled" ++
+  chk (aliasesAgree s) "C13" "aliasesAgree" ++
+  chk (s.pledges.all (usedAgrees s)) "C14" "usedAgrees" ++
+  chk (s.pledges.all (shardPledgeAgrees s)) "C14" "shardPledgeAgrees" ++
+  chk ((providersOf s).all (workerAgrees s)) "C14" "workerAgrees" ++
+  chk (poolAgrees s) "C14" "poolAgrees" ++
+  chk (usedBounds s) "C07" "usedBounds" ++
+  chk (idsFresh s) "C16" "idsFresh" ++
+  chk (oneInFlight s) "C16" "oneInFlight" ++
+  chk (superInv s) "C20" "superInv" ++
+  chk (solventOrder e s) "C06" "solventOrder" ++
+  chk (solventNode e s) "C06" "solventNode"
+
+def isBlockEnd : Op → Bool
+  | .end_ => true
+  | _ => false
+
+def checkStep (e : Env) (pre : State) (op : Op) (res : Res) (post : State) : List (String × String) :=
+  let _ := e; let _ := pre
+  -- C02: nothing may hang; blockers may not panic
+  (match res with
+   | .hang => [("C02", s!"clause=hang site={match (step e pre op).1 with | .hang => "model-predicted" | _ => "unpredicted"}")]
+   | .panic => [("C02", "clause=blocker-panic")]
+   | _ => []) ++
+  (if isBlockEnd op && res = .ok then chk (timeoutPending post) "C12" "timeoutPending" else [])
 
 end SaoVerif.Monitors
